@@ -21,7 +21,8 @@ RULE = ("(a) is_address_valid() compared with the reference predicate for all 65
         "Non-trivial: the frame reached update(); distinct = (role, level, "
         "type, length, destination class, origin class).")
 REQUIRED = {"predicate": 65537, "update_returns": 8000, "bounded_time": 8000,
-            "invalid_dropped": 1500, "transmissions_explained": 8000, "lease_table_explained": 1500}
+            "invalid_dropped": 1500, "transmissions_explained": 8000, "lease_table_explained": 1500,
+            "address_preserved": 8000}
 BUDGET = {"quick": 480, "thorough": 900}
 EXHAUSTIVE = {"quick": "validity predicate over all 65536 values + None",
               "thorough": "validity predicate over all 65536 values + None"}
@@ -90,11 +91,12 @@ def gen_cases(ctx):
     yield from gen_followed_by_invalid(ctx)
     # systematic: every type x a few lengths, for self-addressed and routed frames, master & node
     for role in ("master3", "net", "meshnm_connected", "router"):
-        for dcls in ("self", "child", "parentside"):
+        for dcls in ("self", "child", "parentside", "self/own-origin"):
             frames = []
             for typ in range(256):
                 for ln in ((0, 2, 24) if ctx.tier == "quick" else range(0, 25, 3)):
-                    frames.append({"to": None, "dcls": dcls, "ocls": "valid", "type": typ, "len": ln,
+                    frames.append({"to": None, "dcls": dcls.split("/")[0], "ocls": "self" if "/" in dcls else "valid",
+                                   "type": typ, "len": ln,
                                    "reserved": typ % 7, "id": typ * 3, "pipe": 1 + typ % 5})
             for k in range(0, len(frames), 96):
                 yield {"part": "frames", "role": role, "level": 0 if role == "master3" else 2,
@@ -223,6 +225,8 @@ def _frames(ctx, case, rig, radio, o):
         built = [build(fr, me, rng) for fr in burst]
         qlen0 = len(o.queue)
         table0 = dict(getattr(o, "dhcp_dict", None) or {})
+        addr0 = o.node_address
+        pipes0 = [radio.pipe_addr(p) for p in range(6)] + [radio.r[2]]
         air0 = len(rig.air.log)
         for (raw, _), fr in zip(built, burst):
             radio.inject_rx(fr.get("pipe", 1), raw)
@@ -284,6 +288,16 @@ def _frames(ctx, case, rig, radio, o):
                               % ([r.hex()[:24] for r, _ in built], qlen0, len(o.queue),
                                  len(sent_now)), dict(case, frames=burst, burst=len(burst)))
                 return
+        # ---- nothing a node receives may move it to another address or change what it listens to
+        ctx.clause("address_preserved")
+        pipes1 = [radio.pipe_addr(p) for p in range(6)] + [radio.r[2]]
+        if o.node_address != addr0 or pipes1 != pipes0:
+            ctx.violation("node-address-changed/%s" % case["role"].rstrip("0123456789"),
+                          "%s: after receiving %r the node's address is %s (was %s); pipes %s"
+                          % (case["role"], desc, oct(o.node_address), oct(addr0),
+                             "unchanged" if pipes1 == pipes0 else "now %r" % [x.hex() if isinstance(x, bytes) else x for x in pipes1][:2]),
+                          dict(case, frames=frames[:i], burst=case["burst"]))
+            return
         # ---- what the node transmits must be explained by what it received: the frame itself
         # passed along, a NETWORK_ACK for it, or the protocol's answer to that very type (poll ->
         # poll, lookup -> lookup, address request -> request passed to the master / response)
